@@ -137,7 +137,7 @@ func (m *monitor) step(i int, o op, chunk pb.Chunk, res string, before, after fs
 		if len(at) < len(bt) || len(trAfter) < len(trBefore) {
 			m.disturbed = true
 		}
-		if o.kind == opTick || o.kind == opDrain {
+		if o.kind == opTick || o.kind == opDrain || o.kind == opConcTick {
 			for k := range trBefore {
 				if _, ok := trAfter[k]; !ok {
 					if last, seen := m.lastTouch[k]; seen && m.now-last < m.c.to {
